@@ -19,6 +19,7 @@ LEVEL = "exploration"
 CLAIM = True
 TECHNIQUE = 'property-based testing: type-directed generated filter expressions vs an independent RFC 9535 reference evaluator; exhaustive comparison table over a 33-value universe'
 LEVEL_TEXT = 'Exploration by generated-input search: well-typed filter ASTs (tests, comparisons, !, &&, ||, the five functions, nested filters) generated against the candidate values and compared with the reference evaluator; the comparison table (33 values incl. absent, look-alikes and nested containers) x 6 operators x literal/@/$ operand forms, existence-on-every-kind and $/@ binding at nesting depth 1-3 are enumerated exhaustively.'
+LEVEL_TEXT += " Also: text-level mutants of rendered filter queries, classified by an independent hand-written RFC 9535 parser and the reference typing checker; every well-formed, well-typed mutant must compile and select exactly what the reference evaluator selects from the reference's own AST."
 BUDGET_S = {"quick": 80, "thorough": 900}
 RULE = ("Well-typed-by-construction RFC 9535 filter ASTs (existence tests, comparisons among literals, "
         "singular @/$ queries and ValueType function results, !, &&, ||, parentheses, length/count/value/"
